@@ -317,6 +317,7 @@ class Explorer:
     self.solver_s = 0.0
     self.truncated = False
     self.model_hook = None
+    self.refuter = None   # name -> (model, detail) | None: bounded native search of the contract
 
   def explore(self, body):
     prefix = []
@@ -375,6 +376,20 @@ class Explorer:
     r = s.check()
     model = safe_model(s) if r == z3.sat else None
     backend = 'z3'
+    if r == z3.unknown and self.refuter is not None:
+      # cheap first: the contract's own bounded native search on the real code
+      hit = self.refuter(name)
+      if hit is not None:
+        s.pop()
+        s.set('timeout', self.branch_timeout_ms)
+        if not self.branch_mbqi:
+          s.set('smt.mbqi', False)
+        dt = time.time() - t0
+        self.solver_s += dt
+        self.results.append(dict(name=name, status='failed', backend='native-search', time=dt,
+                                 pymodel=hit[0], trail=[c for c, _, _ in path.trail],
+                                 info=f'solver: unknown; refuted by bounded native search over small models: {hit[1]}'))
+        return False
     if r == z3.unknown:
       from . import solve
       r2, backend2, model2 = solve.retry(s, self.goal_timeout_ms)
